@@ -36,7 +36,7 @@ ANCHORS = [
     "acnportal.acnsim.models.battery:Linear2StageBattery._charge_stepwise",
     "acnportal.acnsim.models.ev:EV.charge",
 ]
-REQUIRED = ["charge_calculation_switched_on_a_living_battery", "second_simulations_with_reset_evs", "calls_with_voltage_or_period_changing_on_one_battery", "battery_json_round_trips_mid_sequence", "charge_calls_judged", "regime:ideal", "regime:l2-continuous", "regime:l2-stepwise",
+REQUIRED = ["simulations_with_one_battery_object_shared_by_several_evs", "charge_calculation_switched_on_a_living_battery", "second_simulations_with_reset_evs", "calls_with_voltage_or_period_changing_on_one_battery", "battery_json_round_trips_mid_sequence", "charge_calls_judged", "regime:ideal", "regime:l2-continuous", "regime:l2-stepwise",
             "regime:l2-continuous+noise", "regime:l2-stepwise+noise", "sim_cells_checked", "suite:charge_calls_judged", "resets_above_capacity", "resets_within_capacity"]
 BUDGET_S = {"quick": 200, "thorough": 2400}
 
@@ -153,7 +153,7 @@ def cases(seed, tier):
         sch = rng.choice(["scripted", "scripted", "uncontrolled", "sorted"])
         kinds = ("EVSE", "DB", "FR") if sch != "sorted" else ("EVSE", "FR")
         d = gen.scenario(rng, sched=sch, kinds=kinds, noise_p=0.5, constraint_free_p=0.0 if sch == "sorted" else 0.2)
-        out.append({"kind": "sim", "desc": d, "reuse_evs": rng.random() < 0.4})
+        out.append({"kind": "sim", "desc": d, "reuse_evs": rng.random() < 0.4, "shared_battery": rng.random() < 0.15})
     out.append({"kind": "suite"})  # the repository's own tests as one more workload under the same post-condition
     return out
 
@@ -267,7 +267,19 @@ def _run_seq(case, obs):
 def _run_sim(case, obs):
     from vlib.monitors import SimProbe
     d = case["desc"]
-    sim, evs = build.build_sim(d)
+    if case.get("shared_battery") and len(d["sessions"]) >= 2:
+        # one Battery object built once and handed to several EVs (a loop that forgot to build a battery per car): the energy
+        # book-keeping of such cars is the user's problem, the bounds on every recorded rate are not
+        shared = build.build_battery({"t": "ideal", "cap": 1e5, "init": 0, "maxp": 30})
+        evs0 = []
+        from acnportal.acnsim.models import EV
+        for k_, s_ in enumerate(d["sessions"]):
+            b_ = shared if k_ % 2 == 0 else build.build_battery(s_["battery"])
+            evs0.append(EV(s_["arrival"], s_["departure"], s_["requested"], s_["station"], s_["id"], b_, estimated_departure=s_.get("est_dep", s_["departure"])))
+        sim, evs = build.build_sim(d, evs=evs0)
+        obs.ev("simulations_with_one_battery_object_shared_by_several_evs")
+    else:
+        sim, evs = build.build_sim(d)
     _sim_once(obs, d, sim, "first use of the EV objects")
     if case.get("reuse_evs"):
         # day 2: the same EV objects after their public reset(), on a fresh network and simulator, under a scheduler that keeps
